@@ -138,10 +138,11 @@ CLAIMED.update({
         text="estimate_minor() on 1-3 copy major solutions over the toy gene and generated databases, with planted, "
              "noisy, wild, edited (variant lost / gained) and homozygous evidence, with and without phase records. The "
              "minor stage keeps one optimum, so the adversary makes 'every reported refinement' range over the optimal "
-             "face: rules 1-6 are evaluated on each, the score is recomputed (phase off), the optimum value must agree "
+             "face: rules 1-6 are evaluated on each, the score is recomputed (read-phase term included), the optimum value must agree "
              "across adversary seeds and with exhaustive enumeration on tiny instances.",
         note="Trusted: evidence filters re-applied through aldy's Coverage.filtered; tie-breaker bound used as tolerance; "
-             "read-phase term not re-implemented (those cases: rules + cross-adversary agreement only).",
+             "read-phase term re-implemented except for the model's down-sampling of phase patterns (those cases: rules + "
+             "cross-adversary agreement only).",
         design="DESIGN.md section 4 (C02-C04)",
     ),
     "C06": dict(
